@@ -12,7 +12,7 @@ CHECKS = {
  'C18': dict(cat='proof', tech='Rocq proof (glob matcher = declarative Matches relation; first-match, default direction, directory-rule, rooted-pattern and parse theorems for arbitrary rule lists; selection predicate) + correspondence with libc fnmatch, the repo fnmatch.c, filter_* direct calls and list/check/fix on generated trees',
              text='The include/exclude decision procedure is proved against its declarative meaning for all rule lists and paths; the matcher and filters are executed against libc and the real elem.c on ~60k generated cases per run and against the real binary on generated configurations and trees with an independent tree walk as oracle.',
              ref='4/C18'),
- 'C06': dict(cat='proof', tech='Rocq proof (inductive invariant MapOK/ParOK of the sync-loop model for all states, file-system contents, read faults and stop points; save normalisation; reachability) + one-step command-level correspondence of the sync loop + independent map/parity oracles after every command of generated histories',
+ 'C06': dict(cat='proof', tech='Rocq proof (inductive invariant MapOK/ParOK of the sync-loop model for all states, file-system contents, read faults and stop points; save normalisation; reachability over load/scan/sync/save/info/touch/fix-parity-write steps under cross-length hash injectivity, shown necessary by a witness) + one-step command-level correspondence of the sync loop + independent map/parity oracles after every command of generated histories',
              text='The invariant "every all-BLK stripe has parity encoding blocks that hash to the recorded hashes, and the block map is well formed" is proved inductive over load/sync/save rounds of the faithful sync model (parity-write faults excluded and refuted separately); the model is replayed against the real sync on every generated history and an independent decoder + GF reference recompute every synced stripe after every real command.',
              ref='4/C06'),
  'C15': dict(cat='proof', tech='Rocq proof (plan selection: bad always, full/new/bad plans, percentage quota, age limit, oldest-first with tie rule; honest bookkeeping; eventual coverage by default scrubs) + command-level correspondence under a steered clock',
@@ -60,7 +60,7 @@ CHECKS = {
  'C05': dict(cat='proof', tech='Rocq proof: fix_never_wrong stated in full, refuted by concrete witness histories (vm_compute) for the open findings b, c, d; proved under PastHashInv (partial); regression theorem for the repaired F-C05a + histories with a version store on the real binary, wrong results attributed to a finding only by an independent diagnosis',
              text='The full-strength statement is false on this tree in three registered ways (printed as KNOWN-FINDING); the partial theorem names the invariant repair relies on. Generated histories (interrupted/partial syncs, re-used positions, any damage, filters) are judged by the harness version store: every file must equal a stored version matching its record or be reported unrecoverable.',
              ref='4/C05'),
- 'C03': dict(cat='proof', tech='Rocq proof (MDS of the 6x251 Cauchy and 3x251 power matrices by polynomial root counting in MathComp; Gauss-Jordan without pivoting never meets a zero pivot; combination enumerator and sorting networks) + unit correspondence of raid_rec/raid_data/raid_check/raid_scan in all decoder families against the known original stripe',
+ 'C03': dict(cat='proof', tech='Rocq proof (MDS of the 6x251 Cauchy and 3x251 power matrices by polynomial root counting in MathComp; Gauss-Jordan without pivoting never meets a zero pivot; combination enumerator and sorting networks; the six SSSE3/AVX2 decoders of x86.c TRANSLATED on every run and proved equal to the recovery expression by a verified reflective checker) + unit correspondence of raid_rec/raid_data/raid_check/raid_scan in all decoder families against the known original stripe',
              text='All 3.8e11 minors are settled by theorems, not enumeration; the decoder/validator models are executed against the real raid/*.c (int8, ssse3, avx2, dispatcher) on exhaustive small geometries and boundary-aimed large ones, the oracle being the original stripe.',
              ref='4/C03'),
  'C02': dict(cat='proof', tech='Rocq proof (tables regenerated from tables.c = closed forms; GF(2^8) field laws; 32/64-bit SWAR lemmas; portable generator models = matrix product for all nd<=251; the 20 SIMD generators of x86.c/x86z.c TRANSLATED on every run into a deep-embedded program and proved by a verified reflective checker) + unit correspondence of all 31 exported variants and of the extracted SIMD interpreter against the silicon',
